@@ -446,12 +446,14 @@ def rendering_typestate(ctx: Ctx):
     for cname in ("_BaseAnchoredCollator", "SortByValueCollator"):
         ci = ctx.repo.cls("collator.py", cname)
         e = expand(ctx.repo, ci, "_display_order", stop=lambda mm: True)
-        leaves = strip_ifexp_paths(e)
         ok = False
-        for gs, leaf in leaves:
-            if gs and u(gs[-1][0]) == "self._format == ORDER_FORMAT.BOGUS_IDS" and gs[-1][1]:
-                ok = u(leaf).startswith("tuple((self._order_mapping[idx] if idx < 0 else idx for idx in ")
-        ctx.ob("rendering-last", f"collator.py::{cname}._display_order", ok, True, ok, "hidden filter first (on signed idx), then the elementwise id rendering")
+        if isinstance(e, ast.IfExp) and u(e.test) == "self._format == ORDER_FORMAT.BOGUS_IDS":
+            signed = u(e.orelse)
+            r = e.body
+            if isinstance(r, ast.Call) and u(r.func) == "tuple" and len(r.args) == 1 and isinstance(r.args[0], ast.GeneratorExp):
+                g = r.args[0]
+                ok = len(g.generators) == 1 and u(g.generators[0].iter) == signed and not g.generators[0].ifs
+        ctx.ob("rendering-last", f"collator.py::{cname}._display_order", ok, True, ok, "the id rendering is an elementwise map of the finished (filtered, de-duplicated) signed order - nothing is filtered or reordered after it")
 
 
 def _order_uses_format(ctx: Ctx) -> bool:
